@@ -534,10 +534,11 @@ class TFun(T):
 class SV:
     """Symbolic scalar / embedded value."""
 
-    __slots__ = ("term", "ty", "origin")
+    __slots__ = ("term", "ty", "origin", "narrow")
 
     def __init__(self, term, ty: T, origin=None):
         self.term, self.ty, self.origin = term, ty, origin
+        self.narrow = None  # (local name, value when the test is true, value when it is false) for `x is [not] None` tests
 
     def __repr__(self):
         return f"SV({self.term}:{self.ty})"
@@ -719,6 +720,15 @@ class DictObj(HeapObj):
 
     def set(self, st, kt, vt):
         was = self.member[kt]
+        if st is not None and hasattr(st, "solver") and not self.is_empty_literal:
+            try:
+                known = st.solver.check(z3.Not(was)) == z3.unsat
+            except z3.Z3Exception:
+                known = False
+            if known:
+                # re-assignment of an existing key: only the value changes (position, membership and size are kept)
+                self.vals = z3.Store(self.vals, kt, vt)
+                return
         if self.keys is not None:
             self.keys = z3.If(was, self.keys, z3.Store(self.keys, self.n, kt))
             self.pos = z3.If(was, self.pos, z3.Store(self.pos, kt, self.n))
